@@ -204,7 +204,7 @@ impl Check for C04 {
     fn cases(&self, tier: Tier) -> u64 {
         match tier {
             Tier::Quick => 12_000,
-            Tier::Thorough => 400_000,
+            Tier::Thorough => 150_000,
         }
     }
     fn tape_len(&self, _t: Tier) -> usize {
